@@ -88,6 +88,7 @@ def same_args(ctx, name: str, track: str) -> None:
         ctx.rep.check(t is not None and attr_of_name(t, "labware", attr), rule, f"{f.qualname}/{k}", f"{k} = labware.{attr}", f"the well bitmap is built for `{show(t) if t is not None else None}` {k}, not for the tracked labware", where=w)
     for k in ("labware_position", "liquid_class", "tips", "arm"):
         t = fb.get(k)
+        t = fv.res.resolve(t, F.node) if t is not None else None
         ctx.rep.check(t is not None and is_name(t, k), rule, f"{f.qualname}/{k}", f"`{k}` is passed through unchanged", f"`{k}` reaches the command as `{show(t) if t is not None else 'default'}`", where=w)
     # the appended record is exactly that command
     apps = [cs for cs in fv.calls() if isinstance(cs.call.func, ast.Attribute) and cs.call.func.attr == "append" and is_name(cs.call.func.value, f.params[0])]
